@@ -233,9 +233,13 @@ func (e *ParseError) Error() string {
 }
 
 type reader struct {
-	b     []byte
-	p     int
-	depth int
+	b      []byte
+	p      int
+	depth  int
+	maxLen int64 // largest 4-byte length field read so far
+	// lenient: accept an empty list with an unknown element id and go on (used only to
+	// bound declared lengths the way a reader that accepts such lists would meet them)
+	lenient bool
 	// StringLenSigned: a name/string length with the top bit set is NEGLEN (go-mc and the
 	// property's 0..32767 bound) rather than an unsigned length.
 }
@@ -350,6 +354,9 @@ func (r *reader) payload(tag byte) (*Value, *ParseError) {
 		if e != nil {
 			return nil, e
 		}
+		if int64(n) > r.maxLen {
+			r.maxLen = int64(n)
+		}
 		if n < 0 {
 			return nil, &ParseError{NegLen, off, "bytearraylen"}
 		}
@@ -374,12 +381,19 @@ func (r *reader) payload(tag byte) (*Value, *ParseError) {
 		if e != nil {
 			return nil, e
 		}
+		if int64(n) > r.maxLen {
+			r.maxLen = int64(n)
+		}
 		if n < 0 {
 			return nil, &ParseError{NegLen, off, "listlen"}
 		}
 		if et > LongArray {
 			if n > 0 {
 				return nil, &ParseError{BadTag, off - 1, "elemtag"}
+			}
+			if r.lenient {
+				v.Elem = et
+				return v, nil
 			}
 			return nil, &ParseError{BadElemEmpty, off - 1, "elemtag"}
 		}
@@ -431,6 +445,9 @@ func (r *reader) payload(tag byte) (*Value, *ParseError) {
 		if e != nil {
 			return nil, e
 		}
+		if int64(n) > r.maxLen {
+			r.maxLen = int64(n)
+		}
 		if n < 0 {
 			return nil, &ParseError{NegLen, off, "intarraylen"}
 		}
@@ -447,6 +464,9 @@ func (r *reader) payload(tag byte) (*Value, *ParseError) {
 		n, e := r.i32("longarraylen")
 		if e != nil {
 			return nil, e
+		}
+		if int64(n) > r.maxLen {
+			r.maxLen = int64(n)
 		}
 		if n < 0 {
 			return nil, &ParseError{NegLen, off, "longarraylen"}
@@ -710,4 +730,22 @@ func Count(v *Value) (n int, kinds uint16) {
 		kinds |= k
 	}
 	return
+}
+
+// MaxDeclaredLen returns the largest 4-byte length field the reference reader
+// meets while reading b (up to the point where it stops). Monitors use it to
+// keep generated inputs below an allocation bound.
+func MaxDeclaredLen(b []byte, network bool) int64 {
+	r := &reader{b: b, lenient: true}
+	t, e := r.u8("tag")
+	if e != nil || t == End || t > LongArray {
+		return 0
+	}
+	if !network {
+		if _, e := r.str("name"); e != nil {
+			return 0
+		}
+	}
+	_, _ = r.payload(t)
+	return r.maxLen
 }
